@@ -174,6 +174,40 @@ Section Ref.
     destruct (dispatcher acc sites (S (S (length (classes x)))) i (s_codec s) (i, 0) s x inp present) as [x' o].
     cbn [snd] in *. rewrite H. reflexivity.
   Qed.
+  (* entering a class in the reference semantics: a leaf, or the class's own dispatcher (either mode) *)
+  Definition ref_enter (cl: list cls) (fuel: nat) (inp: inkeys) (present: list nat) (c: nat) : outcome :=
+    match config_site sites c with
+    | None => leaf acc cl c present
+    | Some (_, sj) => ref_disp cl fuel sj inp present
+    end.
+
+  (* the relational form WITHOUT plain_carriers: the unique class carrying the tag is ENTERED - an instance / its own error
+     if it is a plain class, the answer of its own dispatcher (on the same input) if it declares one; nobody -> NotFound *)
+  Theorem registry_nested pre i s inp t present o :
+    nth_error sites i = Some s -> s_field s = true -> site_ok s (length (defs pre)) = true ->
+    assoc (s_fid s) inp = Some (Hashable t) -> uniq_all (defs pre) inp ->
+    snd (step acc sites (final acc sites pre) (Decode i inp present)) = Some o ->
+    (forall c, carries (defs pre) s c t -> o = ref_enter (defs pre) (S (length (defs pre))) inp present c)
+    /\ ((forall c, ~ carries (defs pre) s c t) -> o = ONotFound).
+  Proof.
+    intros Hs Hf OK HT UA E. rewrite (decode_ref pre i inp present UA no_crash_always) in E. injection E as <-.
+    pose proof (wf_defs pre) as W. unfold ref_decode. rewrite Hs. cbn [ref_disp]. rewrite OK. cbn [negb]. rewrite Hf, HT.
+    split.
+    - intros c C. rewrite (carriers_unique (defs pre) s t c W OK (UA i s t Hs Hf OK HT) C). reflexivity.
+    - intros NO. rewrite (carriers_nil (defs pre) s t W OK NO). reflexivity.
+  Qed.
+
+  (* no-field mode WITHOUT no_nested: the first class, in walk order (subclasses before supertypes), whose entering yields
+     an instance - a plain class that accepts, or a nested dispatcher that finds one *)
+  Theorem nofield_nested pre i s inp present :
+    nth_error sites i = Some s -> s_field s = false -> site_ok s (length (defs pre)) = true ->
+    uniq_all (defs pre) inp ->
+    snd (step acc sites (final acc sites pre) (Decode i inp present))
+    = Some (ref_loop (ref_enter (defs pre) (S (length (defs pre))) inp present) (variants (defs pre) s)).
+  Proof.
+    intros Hs Hf OK UA. rewrite (decode_ref pre i inp present UA no_crash_always).
+    unfold ref_decode. rewrite Hs. cbn [ref_disp]. rewrite OK. cbn [negb]. rewrite Hf. reflexivity.
+  Qed.
 End Ref.
 
 (* same classes => same answer, whatever was decoded, created or registered before: history independence at full
